@@ -840,7 +840,7 @@ def c14_oracle(full, io, b):
             continue
         exp = rfc_resolve(base, ref)
         # an empty path under an authority is the same URL as '/'
-        norm = lambda t: t[:2] + (("/" if (t[1] and not t[2]) else t[2]),) + t[3:]  # noqa
+        norm = lambda t: t  # noqa  (the components must be EXACTLY those of RFC 3986 5.2.2: '' and '/' are different paths)
         if norm(got) != norm(exp):
             cls = "join-rfc"
             if not base[1] and (not base[2].startswith("/")) and norm(exp)[:2] + norm(exp)[3:] == norm(got)[:2] + norm(got)[3:] \
